@@ -493,6 +493,10 @@ class Parser:
                     "end of script reached while %s expected"
                     % "|".join(self.__expected)
                 )
+            if self.__curcommand is not None:
+                raise ParseError(
+                    "end of script reached while semicolon or block expected"
+                )
 
         except (ParseError, CommandError, UnicodeDecodeError) as e:
             self.error_pos = (
